@@ -288,6 +288,7 @@ def run(ctx):
     binp = build_parser(ctx)
     if binp is None:
         lean_check(ctx, "I18nVerif.Theorems.C06", "C06_")
+        lean_check(ctx, "I18nVerif.Theorems.C06Order", "C06_")
         finish_broken(ctx, "harness does not build")
         write_evidence(ctx, RULE)
         return
@@ -300,7 +301,7 @@ def run(ctx):
     orig = proj.literal_operands
     proj.literal_operands = lambda p: sorted(set(orig(p)) | {"u:3", "u:0", "u:1", "u:2", "u:5", "u:21"})
     try:
-        generic_pipeline_check(ctx, [("I18nVerif.Theorems.C06", "C06_")], projects, make_oracle(binp), "C06")
+        generic_pipeline_check(ctx, [("I18nVerif.Theorems.C06", "C06_"), ("I18nVerif.Theorems.C06Order", "C06_")], projects, make_oracle(binp), "C06")
         generic_pipeline_check(ctx, [], fallback_witnesses(), witness_oracle, "C06-fallback-witnesses")
         generic_pipeline_check(ctx, [], subkey_target_projects(), subkey_oracle, "C06-subkey-targets")
         more = [proj.gen_project(rng, {"fk": True}) for _ in range(ctx.budget(300, 6000))]
